@@ -1,5 +1,6 @@
 /- Line-protocol handler for the PairState layer (C06): one line = one whole history. -/
 import HapModel.Drv.Encoder
+import HapModel.PairStateHist
 namespace Hap.Drv.PS
 open Lean Hap Hap.Drv Hap.Drv.Enc Hap.PairState Hap.Encoder
 
@@ -58,60 +59,66 @@ def handle (j : Json) : R Json := do
       let (s', r, wrote) := step parse s o
       let doc ← if wrote then do
           let a ← identOf identJ s'
-          pure (jdoc (persist a))
+          pure (jfile a)
         else pure Json.null
-      outs := outs.push (Json.mkObj [("resp", jresp r), ("state", jpstate s'), ("wrote", Json.bool wrote), ("doc", doc)])
+      let pr : Bool := match o with
+        | .req rq => pairingRemoved parse s rq
+        | .setup _ _ => false
+      outs := outs.push (Json.mkObj [("resp", jresp r), ("state", jpstate s'), ("wrote", Json.bool wrote), ("doc", doc),
+        ("pr", Json.bool pr)])
       s := s'
     pure (Json.mkObj [("steps", Json.arr outs)])
   | "sessions" =>
-    -- histories with real sessions: connections are numbered, identity comes from `verify` ops
+    -- whole-life histories (`hstep`): connections are numbered, identity comes from `verify` ops;
+    -- configuration / hash changes and restarts act on the persisted identity
     let tbl ← getObj j "parse"
     let parse := parseOf tbl
     let identJ ← getObj j "ident"
-    let mut s ← match j.getObjVal? "init" with
+    let s0 ← match j.getObjVal? "init" with
       | .ok i => pstateOf i
       | .error _ => pure PState.empty
-    let mut ss : Sessions := Sessions.fresh
+    let mut w : World := { acc := ← identOf identJ s0, ss := Sessions.fresh }
     let mut outs : Array Json := #[]
     for oj in (← getArr j "ops") do
       let k ← getStr oj "k"
-      let sop : SOp ← match k with
-        | "setup" => pure (SOp.setup (← getHex oj "id") (← getHex oj "key"))
+      let hop : HOp ← match k with
+        | "setup" => pure (HOp.s (SOp.setup (← getHex oj "id") (← getHex oj "key")))
         | "verify" =>
           let idb ← optHex oj "id"
           let signer ← optHex oj "signer"
-          pure (SOp.verify (← getNat oj "c") { outerOk := ← getBool oj "outer_ok", idb, signer })
-        | "req" => pure (SOp.req (← getNat oj "c") (← getHex oj "body"))
+          pure (HOp.s (SOp.verify (← getNat oj "c") { outerOk := ← getBool oj "outer_ok", idb, signer }))
+        | "req" => pure (HOp.s (SOp.req (← getNat oj "c") (← getHex oj "body")))
+        | "config" => pure HOp.config
+        | "hash" => pure (HOp.hsh (← optStr oj "h"))
+        | "restart" => pure HOp.restart
         | _ => throw s!"sessions: unknown op kind {k}"
-      let idb? : Option Bytes := match sop with
-        | .setup idb _ => some idb
-        | .verify _ v => if v.outerOk then v.idb else none
-        | .req _ body => (Hap.Tlv.decode body []).bind fun objs => aget objs tUser
+      let idb? : Option Bytes := match hop with
+        | .s (.setup idb _) => some idb
+        | .s (.verify _ v) => if v.outerOk then v.idb else none
+        | .s (.req _ body) => (Hap.Tlv.decode body []).bind fun objs => aget objs tUser
+        | _ => none
       if let some idb := idb? then
         if (tbl.getObjVal? (toHex idb)).toOption.isNone then
           throw s!"parse table has no entry for id {toHex idb}"
-      let (s', ss', ans) := sstep parse s ss sop
-      let c : Nat := match sop with
-        | .verify c _ => c
-        | .req c _ => c
-        | .setup _ _ => 0
-      let sess := Json.mkObj [("enc", Json.bool (ss' c).enc), ("cu", jopt juuid (ss' c).cu)]
-      let out ← match sop, ans with
-        | .verify _ v, _ =>
-          let filled := match verifiesAs parse s v with
-            | some (u, idb) => (backfill s u idb).2
-            | none => false
-          pure (Json.mkObj [("verified", Json.bool (verifies parse s v).isSome), ("sess", sess), ("state", jpstate s'),
-            ("wrote", Json.bool filled)])
-        | .setup _ _, some (r, wrote) =>
-          pure (Json.mkObj [("resp", jresp r), ("state", jpstate s'), ("wrote", Json.bool wrote)])
-        | _, some (r, wrote) =>
-          let doc ← if wrote then do pure (jdoc (persist (← identOf identJ s'))) else pure Json.null
-          pure (Json.mkObj [("resp", jresp r), ("state", jpstate s'), ("wrote", Json.bool wrote), ("doc", doc), ("sess", sess)])
-        | _, none => throw "sessions: no answer"
+      let (w', ans) := hstep parse w hop
+      let sessOf := fun (c : Nat) => Json.mkObj [("enc", Json.bool (w'.ss c).enc), ("cu", jopt juuid (w'.ss c).cu)]
+      let out ← match hop, ans with
+        | .s (.verify c _), .verified ok wrote =>
+          pure (Json.mkObj [("verified", Json.bool ok), ("sess", sessOf c), ("state", jpstate w'.acc.ps),
+            ("wrote", Json.bool wrote)])
+        | .s (.setup _ _), .resp r wrote =>
+          pure (Json.mkObj [("resp", jresp r), ("state", jpstate w'.acc.ps), ("wrote", Json.bool wrote)])
+        | .s (.req c body), .resp r wrote =>
+          let doc := if wrote then jfile w'.acc else Json.null
+          pure (Json.mkObj [("resp", jresp r), ("state", jpstate w'.acc.ps), ("wrote", Json.bool wrote), ("doc", doc),
+            ("sess", sessOf c), ("pr", Json.bool (pairingRemoved parse w.acc.ps ⟨w.ss c, body⟩))])
+        | .config, .saved wrote | .hsh _, .saved wrote =>
+          pure (Json.mkObj [("acc", jacc w'.acc), ("wrote", Json.bool wrote), ("doc", if wrote then jfile w'.acc else Json.null)])
+        | .restart, .restarted ok =>
+          pure (Json.mkObj [("restarted", Json.bool ok), ("acc", jacc w'.acc)])
+        | _, _ => throw "sessions: unexpected answer shape"
       outs := outs.push out
-      s := s'
-      ss := ss'
+      w := w'
     pure (Json.mkObj [("steps", Json.arr outs)])
   | _ => throw s!"pairstate: unknown op {op}"
 
